@@ -29,9 +29,9 @@ META = {
         "quick": {"evaluations": 20000, "notifying_assignments": 6000, "silent_assignments": 1500,
                   "rejected_assignments": 1500, "reads": 2000, "raising_handler_calls": 1500,
                   "oldnew_checked": 15000},
-        "thorough": {"evaluations": 600000, "notifying_assignments": 200000,
-                     "silent_assignments": 50000, "rejected_assignments": 50000, "reads": 60000,
-                     "raising_handler_calls": 50000, "oldnew_checked": 500000},
+        "thorough": {"evaluations": 4000000, "notifying_assignments": 1500000,
+                     "silent_assignments": 400000, "rejected_assignments": 400000, "reads": 500000,
+                     "raising_handler_calls": 400000, "oldnew_checked": 4000000},
     },
     "assumptions": [
         "value pools avoid objects whose == and != are mutually inconsistent (the statement's "
@@ -306,7 +306,7 @@ def run(ctx):
     push_exception_handler(lambda *a: legacy_errs.append(a), reraise_exceptions=False, main=True)
     obsapi.push_exception_handler(lambda e: obs_errs.append(e))
     try:
-        nh = ctx.scale(6000, 200000)
+        nh = ctx.scale(6000, 1500000)
         B = 50
         for b in range(0, nh, B):
             if not ctx.mine(b // B):
